@@ -16,14 +16,15 @@ CONSTANTS NCases, MaxMsgs, MaxLen,
 VARIABLE c
 
 R(X) == RandomElement(X)
-D0(dl) == [vals |-> {0}, mds |-> {0}, codes |-> {"?"}, xs |-> {0}, maxc |-> MaxMsgs, maxs |-> MaxMsgs, dl |-> dl]
+D0(dl) == [vals |-> {0}, mds |-> {0}, codes |-> {"?"}, xs |-> {0}, causes |-> {0}, maxc |-> MaxMsgs, maxs |-> MaxMsgs, dl |-> dl]
 CodesW == <<"OK", "OK", "OK", "OK", "NotFound", "NotFound", "Aborted", "Raw", "Unknown", "CtxCanceled", "Canceled",
             "DeadlineExceeded", "CtxDeadline", "Internal", "Unimplemented">>
 
 Fill(z, shape, e) ==
   [e EXCEPT !.v = IF e.c \in {"send", "invoke"} \/ (e.c = "open" /\ shape = "sstream") \/ e.s \in {"send", "return"} THEN R(1..9) ELSE 0,
             !.md = IF e.s \in {"sethdr", "sendhdr", "settrl"} THEN R(1..4) ELSE 0,
-            !.x = IF e.s \in {"sethdr", "sendhdr", "settrl"} THEN R(0..1) ELSE 0,
+            !.x = IF e.s \in {"sethdr", "sendhdr", "settrl"} THEN R(0..3)             \* helper / recycled MD
+                  ELSE IF e.c \in {"cancel", "deadline"} THEN R(0..1) ELSE 0,                \* context with a cause
             !.code = IF e.s = "return" THEN CodesW[R(1..Len(CodesW))] ELSE ""]
 
 \* one kind of step, by weight: message exchanges first, metadata reads last; the end of the
